@@ -6,25 +6,28 @@ reamber/algorithms/generate/full_ln.py, Map.stack and TimedList.from_dict by the
 `harness/props/c17.py` on every run) against the declarative `Spec` of `Reamber/Spec/FullLN.lean`.
 
 Main statement (`fullLn_spec`): for EVERY sorting function (any sorted permutation — numpy's quicksort is not
-stable), every gap and threshold, every chart without further HitList/HoldList-typed lists (`extras = []`,
-known finding D23) whose game's declared defaults are scalars or which has no note (known finding D24), the
-model returns a chart whose notes satisfy `Spec` and whose other parts are untouched.  Everything the
-property lists follows from `Spec` alone (so it also holds for every implementation output accepted by
-`specB`, `specB_sound`): `Spec.conservation`, `Spec.length_eq`, `ColRule.nonlast` / `ColRule.last` /
-`expected_hold` / `expected_hit` (the rule), `Spec.last_kept`, `Spec.no_overlap`.  `specB_iff`: the executable
-check is exactly `Spec`.  `fullLnRows_eq_of_same_last`: the tie order matters only through the last note of a column.
+stable), every gap and threshold and EVERY chart, the hits and holds of the model's result satisfy `Spec` with
+respect to the chart's hits and holds, and the further note lists (StepMania mines, rolls, …) and all other
+parts are untouched.  (Before the repairs of D23 and D24 this needed two hypotheses; the section `PreFix`
+keeps the two defects as theorems about the code as it was, which is what `harness/mutants/fixed/D23.patch`
+and `D24.patch` re-introduce.)  Everything the property lists follows from `Spec` alone (so it also holds for
+every implementation output accepted by `specB`, which is proved equivalent to `Spec`: `specB_iff`):
+`Spec.conservation`, `Spec.length_eq`, `ColRule.nonlast` / `ColRule.last` / `expected_hold` / `expected_hit`
+(the rule), `Spec.last_kept`, `Spec.no_overlap`.  `fullLnRows_eq_of_same_last`: the tie order matters only
+through the last note of a column.
 -/
 import Reamber.Lemmas.FullLN
 import Reamber.Generated.FullLN
 
 namespace Reamber.FullLN
 
-/-- Tie to the source: default arguments of `full_ln`, the lists `m.stack((HitList, HoldList))` picks up per
-map class, and whether `from_dict` can fill the declared defaults — as read from the code by
+/-- Tie to the source: default arguments of `full_ln`, the lists its stack call picks up per map class (read
+from the call as written, `m.stack((type(m.hits), type(m.holds)))`: exactly hits and holds), and that
+`from_dict` of every game's hit/hold class builds the lists — as read from the code by
 `harness/translators/fullln.py`.  Re-checked whenever they change. -/
 theorem consts_tie :
     defaultGap = Generated.FullLN.defaultGap ∧ defaultThres = Generated.FullLN.defaultThres ∧
-    games.map (fun g => (g.name, g.extraLists, g.scalarDefaults)) = Generated.FullLN.games := by
+    games.map (fun g => (g.name, g.stackedLists, g.fromDictFills)) = Generated.FullLN.games := by
   decide +kernel
 
 /-- what is assumed of `sort_values(["offset"])`: *some* permutation in ascending order of time -/
@@ -525,13 +528,9 @@ example : ([⟨0, 0, none⟩, ⟨0, 0, some 5⟩, ⟨10, 0, none⟩] : List Row)
 
 /-! ### the chart-level statement -/
 
-theorem fromDict_ok (sc : Bool) (rows : List Row) (h : sc = true ∨ rows = []) : fromDict sc rows = .ok rows := by
+theorem fromDict_eq (rows : List Row) : fromDict rows = rows := by
   unfold fromDict
-  rcases h with h | h
-  · subst h
-    cases rows <;> simp
-  · subst h
-    simp
+  cases rows <;> simp
 
 theorem asHit_of_isHit (r : Row) (h : isHit r = true) : asHit r = r := by
   cases r with
@@ -547,70 +546,64 @@ theorem notes_result_perm (rows : List Row) :
   rw [h1, List.map_id]
   exact List.filter_append_perm isHit rows
 
-theorem fullLnRows_nil (gap thr : Rat) : fullLnRows gap thr [] = [] := by
-  simp [fullLnRows, groups, columnsOf]
-
-/-- when `from_dict` can build the lists (scalar defaults, or nothing to build), `full_ln` returns the chart
-with `hits` / `holds` replaced by the produced rows and everything else as it was -/
-theorem fullLnWith_ok {α} (sortF : List Row → List Row) (hs : SortsByOffset sortF) (scalar : Bool)
-    (gap thr : Rat) (m : MapM α) (hsc : scalar = true ∨ stacked m = []) :
-    fullLnWith sortF scalar gap thr m = .ok { m with
-      hits := (fullLnRows gap thr (sortF (stacked m))).filter isHit,
-      holds := (fullLnRows gap thr (sortF (stacked m))).filter (fun r => !isHit r) } := by
-  have hrows : scalar = true ∨ fullLnRows gap thr (sortF (stacked m)) = [] := by
-    rcases hsc with h | h
-    · exact Or.inl h
-    · right
-      have : sortF (stacked m) = [] := by
-        have hp := hs.perm (stacked m)
-        rw [h] at hp ⊢
-        exact List.perm_nil.mp hp
-      rw [this, fullLnRows_nil]
-  have e1 := fromDict_ok scalar ((fullLnRows gap thr (sortF (stacked m))).filter isHit)
-    (hrows.imp id (fun h => by rw [h]; rfl))
-  have e2 := fromDict_ok scalar ((fullLnRows gap thr (sortF (stacked m))).filter (fun r => !isHit r))
-    (hrows.imp id (fun h => by rw [h]; rfl))
-  simp only [fullLnWith, e1, e2]
-
-/-- **Main theorem.** For every sorting function `sort_values` may be, every `gap` and threshold, and every
-chart whose only HitList/HoldList-typed lists are `hits` and `holds` (else: D23) and whose lists `from_dict`
-can build (else: D24): `full_ln` returns a chart whose notes satisfy the statement `Spec` with respect to
-the input's notes, and whose tempo and other lists are the input's (**others_unchanged**). -/
-theorem fullLn_spec {α} (sortF : List Row → List Row) (hs : SortsByOffset sortF) (scalar : Bool)
-    (gap thr : Rat) (m : MapM α) (hex : m.extras = []) (hsc : scalar = true ∨ stacked m = []) :
-    ∃ m', fullLnWith sortF scalar gap thr m = .ok m' ∧ Spec gap thr (notes m) (notes m') ∧
-      m'.others = m.others ∧ m'.extras = m.extras := by
-  refine ⟨_, fullLnWith_ok sortF hs scalar gap thr m hsc, ?_, rfl, rfl⟩
-  have hrows := fullLnRows_spec gap thr (stacked m) (sortF (stacked m)) (hs.perm _) (hs.sorted _)
-  show Spec gap thr (stacked m) _
-  apply Spec.of_perm_out hrows
-  simp only [notes, hex, List.nil_append]
+/-- the hits and holds of the result are, up to order, the produced rows -/
+theorem stacked_fullLnWith {α} (sortF : List Row → List Row) (gap thr : Rat) (m : MapM α) :
+    (stacked (fullLnWith sortF gap thr m)).Perm (fullLnRows gap thr (sortF (stacked m))) := by
+  simp only [fullLnWith, stacked, fromDict_eq]
   exact notes_result_perm _
 
+/-- **Main theorem.** For every sorting function `sort_values` may be, every `gap` and threshold and every
+chart: the hits and holds of `full_ln`'s result satisfy the statement `Spec` with respect to the hits and
+holds of the input, and the further note lists, the tempo list and everything else are the input's
+(**others_unchanged**). -/
+theorem fullLn_spec {α} (sortF : List Row → List Row) (hs : SortsByOffset sortF) (gap thr : Rat) (m : MapM α) :
+    Spec gap thr (stacked m) (stacked (fullLnWith sortF gap thr m)) ∧
+      (fullLnWith sortF gap thr m).others = m.others ∧ (fullLnWith sortF gap thr m).extras = m.extras := by
+  refine ⟨?_, rfl, rfl⟩
+  exact (fullLnRows_spec gap thr (stacked m) (sortF (stacked m)) (hs.perm _) (hs.sorted _)).of_perm_out
+    (stacked_fullLnWith sortF gap thr m)
+
 /-- the same for the model's own stable sort (what the driver runs) -/
-theorem fullLn_spec_stable {α} (scalar : Bool) (gap thr : Rat) (m : MapM α) (hex : m.extras = [])
-    (hsc : scalar = true ∨ stacked m = []) :
-    ∃ m', fullLn scalar gap thr m = .ok m' ∧ Spec gap thr (notes m) (notes m') ∧
-      m'.others = m.others ∧ m'.extras = m.extras :=
-  fullLn_spec sortByOffset sortByOffset_sorts scalar gap thr m hex hsc
+theorem fullLn_spec_stable {α} (gap thr : Rat) (m : MapM α) :
+    Spec gap thr (stacked m) (stacked (fullLn gap thr m)) ∧
+      (fullLn gap thr m).others = m.others ∧ (fullLn gap thr m).extras = m.extras :=
+  fullLn_spec sortByOffset sortByOffset_sorts gap thr m
 
-/-- **others_unchanged**, unconditionally: whenever `full_ln` returns, tempo/other lists and the further
-note lists are the input's -/
-theorem fullLnWith_others {α} (sortF : List Row → List Row) (scalar : Bool) (gap thr : Rat) (m m' : MapM α)
-    (h : fullLnWith sortF scalar gap thr m = .ok m') : m'.others = m.others ∧ m'.extras = m.extras := by
-  unfold fullLnWith at h
-  simp only at h
-  split at h
-  · cases h
-  · split at h
-    · cases h
-    · cases h
-      exact ⟨rfl, rfl⟩
+/-- over ALL notes of the chart (further note lists included): one note per input note at the same time and
+column — the conservation that D23 broke -/
+theorem fullLn_notes_conservation {α} (sortF : List Row → List Row) (hs : SortsByOffset sortF) (gap thr : Rat)
+    (m : MapM α) : ((notes (fullLnWith sortF gap thr m)).map key).Perm ((notes m).map key) := by
+  have h := (fullLn_spec sortF hs gap thr m).1.conservation
+  have he : (fullLnWith sortF gap thr m).extras = m.extras := rfl
+  simp only [notes, List.map_append, he]
+  exact List.Perm.append_left _ h
 
-/-! ### what the two hypotheses exclude (known findings D24, D23) -/
+/-! ### the two repaired defects, as theorems about the code as it was (what the reverse patches
+`harness/mutants/fixed/D23.patch` / `D24.patch` bring back) -/
 
-/-- D24: with a list-valued declared default (`scalarDefaults = false`: Quaver's `keysounds = []`) `full_ln`
-raises `ValueError` for EVERY chart that has a note -/
+namespace PreFix
+
+open Reamber.Timing (Err)
+
+/-- before D23: `m.stack((HitList, HoldList))` — every HitList/HoldList-typed list of the chart is stacked -/
+def stacked {α} (m : MapM α) : List Row := m.extras ++ FullLN.stacked m
+
+/-- before D24: `df[col] = default` raises `ValueError` when a declared default is a list (Quaver) -/
+def fromDict (scalarDefaults : Bool) (rows : List Row) : Except Err (List Row) :=
+  if rows.isEmpty then .ok [] else if scalarDefaults then .ok rows else .error .value
+
+def fullLnWith {α} (sortF : List Row → List Row) (scalarDefaults : Bool) (gap thr : Rat) (m : MapM α) :
+    Except Err (MapM α) :=
+  let rows := fullLnRows gap thr (sortF (stacked m))
+  match fromDict scalarDefaults (rows.filter isHit) with
+  | .error e => .error e
+  | .ok hits =>
+    match fromDict scalarDefaults (rows.filter (fun r => !isHit r)) with
+    | .error e => .error e
+    | .ok holds => .ok { m with hits := hits, holds := holds }
+
+/-- D24 (repaired): with a list-valued declared default (Quaver's `keysounds = []`) the old `full_ln` raised
+`ValueError` for EVERY chart that has a note -/
 theorem fullLnWith_raises {α} (sortF : List Row → List Row) (hs : SortsByOffset sortF) (gap thr : Rat)
     (m : MapM α) (hne : stacked m ≠ []) : fullLnWith sortF false gap thr m = .error .value := by
   have hspec := fullLnRows_spec gap thr (stacked m) (sortF (stacked m)) (hs.perm _) (hs.sorted _)
@@ -634,60 +627,59 @@ theorem fullLnWith_raises {α} (sortF : List Row → List Row) (hs : SortsByOffs
 /-- the chart of the D23 witness: hits at 0 and 1000 and a mine at 500, all in column 0 -/
 def d23Chart : MapM Unit := ⟨[⟨500, 0, none⟩], [⟨0, 0, none⟩, ⟨1000, 0, none⟩], [], ()⟩
 
-/-- D23: with a further HitList-typed list (a StepMania mine) the result has one note too many — the mine is
-stacked, becomes a hold, and stays a mine: the statement fails -/
+/-- D23 (repaired): with a further HitList-typed list (a StepMania mine) the old result had one note too
+many — the mine was stacked, became a hold, and stayed a mine -/
 theorem extras_counterexample :
-    d23Chart.extras ≠ [] ∧ ∃ m', fullLn true 150 100 d23Chart = .ok m' ∧ (notes m').length = 4 ∧
-      (notes d23Chart).length = 3 ∧ ¬ Spec 150 100 (notes d23Chart) (notes m') := by
-  refine ⟨by decide, ?_⟩
-  have hok := fullLnWith_ok sortByOffset sortByOffset_sorts true 150 100 d23Chart (Or.inl rfl)
-  refine ⟨_, hok, ?_, by decide, ?_⟩
-  · decide +kernel
-  · intro hspec
-    have h1 := hspec.length_eq
-    revert h1
-    decide +kernel
+    (fullLnWith sortByOffset true 150 100 d23Chart).toOption.map (fun m' => (notes m').length) = some 4 ∧
+      (notes d23Chart).length = 3 := by
+  decide +kernel
 
-/-! ### non-vacuity: concrete instances of the hypotheses and of the statements -/
+end PreFix
 
-/-- a chart inside the hypotheses of `fullLn_spec` (two keys, a chord, a stacked pair at the end of column 0) -/
+/-! ### non-vacuity: concrete instances of the statements -/
+
+/-- two keys, a chord, a stacked pair at the end of column 0 -/
 def exChart : MapM Unit :=
   ⟨[], [⟨0, 0, none⟩, ⟨250, 0, none⟩, ⟨0, 1, none⟩, ⟨600, 0, none⟩], [⟨600, 0, some 40⟩, ⟨249, 1, some 500⟩], ()⟩
 
-example : exChart.extras = [] ∧ ((true = true) ∨ stacked exChart = []) := ⟨rfl, Or.inl rfl⟩
-
 /-- column 0: 0 → hold 100 (250-0-150 = 100 ≥ 100), 250 → hold 200, then the stacked pair at 600: the first
 of them gets 0-150 < 100 → hit, the last keeps kind and length; column 1: 249-0-150 = 99 < 100 → hit -/
-example : (fullLn true 150 100 exChart).toOption.map (fun m => (m.hits, m.holds)) =
-    some ([⟨600, 0, none⟩, ⟨0, 1, none⟩], [⟨0, 0, some 100⟩, ⟨250, 0, some 200⟩, ⟨600, 0, some 40⟩, ⟨249, 1, some 500⟩]) := by
+example : ((fullLn 150 100 exChart).hits, (fullLn 150 100 exChart).holds) =
+    ([⟨600, 0, none⟩, ⟨0, 1, none⟩], [⟨0, 0, some 100⟩, ⟨250, 0, some 200⟩, ⟨600, 0, some 40⟩, ⟨249, 1, some 500⟩]) := by
+  decide +kernel
+
+/-- the D23 witness after the repair: the mine at 500 is not stacked — the hit at 0 becomes a hold that ends
+150 before the hit at 1000, and the mine stays where it was, once -/
+example : ((fullLn 150 100 PreFix.d23Chart).hits, (fullLn 150 100 PreFix.d23Chart).holds,
+    (fullLn 150 100 PreFix.d23Chart).extras) = ([⟨1000, 0, none⟩], [⟨0, 0, some 850⟩], [⟨500, 0, none⟩]) := by
   decide +kernel
 
 /-- the executable specification accepts that output, and the other tie order as well … -/
-example : specB 150 100 (notes exChart)
+example : specB 150 100 (stacked exChart)
     [⟨600, 0, none⟩, ⟨0, 1, none⟩, ⟨0, 0, some 100⟩, ⟨250, 0, some 200⟩, ⟨600, 0, some 40⟩, ⟨249, 1, some 500⟩] = true := by
   decide +kernel
-example : specB 150 100 (notes exChart)
+example : specB 150 100 (stacked exChart)
     [⟨600, 0, none⟩, ⟨0, 1, none⟩, ⟨0, 0, some 100⟩, ⟨250, 0, some 200⟩, ⟨600, 0, none⟩, ⟨249, 1, some 500⟩] = true := by
   decide +kernel
 /-- … but not a wrong length, a lost note, or a changed last note -/
-example : specB 150 100 (notes exChart)
+example : specB 150 100 (stacked exChart)
     [⟨600, 0, none⟩, ⟨0, 1, none⟩, ⟨0, 0, some 101⟩, ⟨250, 0, some 200⟩, ⟨600, 0, some 40⟩, ⟨249, 1, some 500⟩] = false := by
   decide +kernel
-example : specB 150 100 (notes exChart)
+example : specB 150 100 (stacked exChart)
     [⟨0, 1, none⟩, ⟨0, 0, some 100⟩, ⟨250, 0, some 200⟩, ⟨600, 0, some 40⟩, ⟨249, 1, some 500⟩] = false := by
   decide +kernel
-example : specB 150 100 (notes exChart)
+example : specB 150 100 (stacked exChart)
     [⟨600, 0, none⟩, ⟨0, 1, none⟩, ⟨0, 0, some 100⟩, ⟨250, 0, some 200⟩, ⟨600, 0, some 40⟩, ⟨249, 1, some 499⟩] = false := by
   decide +kernel
 
 /-- hypotheses of `Spec.no_overlap` / `Spec.last_kept` are satisfiable: the hold at 250 and the later note at 600 -/
-example : ∃ out, Spec 150 100 (notes exChart) out ∧ (⟨250, 0, some 200⟩ : Row) ∈ out ∧ (⟨600, 0, none⟩ : Row) ∈ out ∧
-    inColumn 0 (notes exChart) ≠ [] :=
-  ⟨_, specB_sound 150 100 (notes exChart)
+example : ∃ out, Spec 150 100 (stacked exChart) out ∧ (⟨250, 0, some 200⟩ : Row) ∈ out ∧ (⟨600, 0, none⟩ : Row) ∈ out ∧
+    inColumn 0 (stacked exChart) ≠ [] :=
+  ⟨_, specB_sound 150 100 (stacked exChart)
     [⟨600, 0, none⟩, ⟨0, 1, none⟩, ⟨0, 0, some 100⟩, ⟨250, 0, some 200⟩, ⟨600, 0, some 40⟩, ⟨249, 1, some 500⟩]
     (by decide +kernel), by decide, by decide, by decide +kernel⟩
 
-/-- `fullLnWith_raises` is not vacuous: a one-note Quaver chart -/
-example : stacked (⟨[], [⟨0, 0, none⟩], [], ()⟩ : MapM Unit) ≠ [] := by decide
+/-- `PreFix.fullLnWith_raises` is not vacuous: a one-note Quaver chart -/
+example : PreFix.stacked (⟨[], [⟨0, 0, none⟩], [], ()⟩ : MapM Unit) ≠ [] := by decide
 
 end Reamber.FullLN
